@@ -107,7 +107,7 @@ impl Property for C04 {
     }
     fn tape_len(&self, tier: Tier) -> usize { tier.pick(300, 500) }
     fn cases(&self, tier: Tier) -> u32 { tier.pick(120_000, 3_000_000) }
-    fn required_labels(&self, _tier: Tier) -> Vec<&'static str> { vec!["fmt:anm", "fmt:std", "fmt:msg", "fmt:end", "fmt:mission", "fmt:ecl", "base:valid", "base:grammar", "base:deep", "base:raw", "base:bundled", "kind:mapfile", "compile:ok", "compile:error", "stage:Parse", "stage:Compile", "stage:Mapfile", "cross-tool", "depth>=200", "mut:token", "mut:byte"] }
+    fn required_labels(&self, _tier: Tier) -> Vec<&'static str> { vec!["fmt:anm", "fmt:std", "fmt:msg", "fmt:end", "fmt:mission", "fmt:ecl", "base:valid", "base:grammar", "base:deep", "base:raw", "base:bundled", "mut:stmt", "kind:mapfile", "compile:ok", "compile:error", "stage:Parse", "stage:Compile", "stage:Mapfile", "cross-tool", "depth>=200", "mut:token", "mut:byte"] }
     fn max_discard_fraction(&self) -> f64 { 0.1 }
 
     fn generate(&self, tape: &mut Tape, tier: Tier, _known: &Known) -> Value {
@@ -162,7 +162,7 @@ impl Property for C04 {
 
     fn check(&self, case: &Value, ctx: &mut CheckCtx) -> Outcome {
         let muts = case["mutations"].as_array().cloned().unwrap_or_default();
-        for m in &muts { let op = m["op"].as_str().unwrap_or(""); ctx.label(if op.starts_with("line") { "mut:mapline" } else if op.starts_with("tok") || op == "nest" { "mut:token" } else { "mut:byte" }); if op == "nest" && m["depth"].as_u64().unwrap_or(0) >= 200 { ctx.label("depth>=200"); } }
+        for m in &muts { let op = m["op"].as_str().unwrap_or(""); ctx.label(if op.starts_with("line") { "mut:mapline" } else if op == "stmt_ins" { "mut:stmt" } else if op.starts_with("tok") || op == "nest" { "mut:token" } else { "mut:byte" }); if op == "nest" && m["depth"].as_u64().unwrap_or(0) >= 200 { ctx.label("depth>=200"); } }
         if case["kind"] == "mapfile" {
             let fmt = Fmt::parse(case["fmt"].as_str().unwrap());
             let game = case["game"].as_str().unwrap();
@@ -170,6 +170,7 @@ impl Property for C04 {
             let mut map = case["map"].as_str().unwrap_or("").as_bytes().to_vec();
             for m in &muts { apply_map_mutation(&mut map, m); }
             if !muts.is_empty() { ctx.nontrivial(); }
+            if std::env::var("TV_DUMP_TEXT").is_ok() { eprintln!("{}", String::from_utf8_lossy(&map)); }
             let v = match run_compile(fmt, game, case["text"].as_str().unwrap_or("").as_bytes(), &[map]) { Ok(v) => v, Err(p) => return Outcome::Fail(p.to_failure("c04:mapfile:")) };
             return match judge(fmt, &v, ctx) { Ok(()) => Outcome::Pass, Err(f) => Outcome::Fail(f) };
         }
